@@ -1,4 +1,4 @@
-from . import check_combo, check_errors, check_establish, check_h2, check_framing, check_pool, check_reqwire, check_upgrade, check_url
+from . import check_combo, check_errors, check_establish, check_h2, check_framing, check_pool, check_reqwire, check_syncasync, check_upgrade, check_url
 
 REGISTRY = {
     "C01": check_combo,
@@ -17,6 +17,7 @@ REGISTRY = {
     "C15": check_errors,
     "C16": check_combo,
     "C17": check_upgrade,
+    "C18": check_syncasync,
     "C19": check_url,
     "C20": check_establish,
 }
